@@ -224,7 +224,8 @@ class BitStringEncoder(AbstractItemEncoder):
         while stop < valueLength:
             start = stop
             stop = min(start + maxChunkSize * 8, valueLength)
-            substrate += encodeFun(alignedValue[start:stop], asn1Spec, **options)
+            # the fragment is a value object carrying the base tag only
+            substrate += encodeFun(alignedValue[start:stop], None, **options)
 
         return substrate, True, True
 
@@ -264,7 +265,7 @@ class OctetStringEncoder(AbstractItemEncoder):
 
             asn1Spec = value.clone(tagSet=tagSet)
 
-        elif not isOctetsType(value):
+        else:
             baseTag = asn1Spec.tagSet.baseTag
 
             # strip off explicit tags
